@@ -276,7 +276,7 @@ PROPS = {
         "assumptions": ["user-supplied getters, converters, String methods and hooks are side-effect-free and do not panic"],
     },
     "C03": {
-        "bridge": TABLES + DEC("Function", "Parse"),
+        "bridge": TABLES + DEC("Function", "Parse", "Notation"),
         "sweeps": [sweep_front("layout", 150, 6000, cats=["exit", "missing-func"]),
                    sweep_front("mixed", 100, 3000, cats=["exit", "missing-func"]),
                    sweep_front("hooks", 60, 2000, cats=["exit", "missing-func"]),
@@ -343,7 +343,7 @@ PROPS = {
         "assumptions": ["go/types relations are oracle tables"],
     },
     "C06": {
-        "bridge": RENDER + TABLES + NODES + DEC("Match", "Resolve", "Default", "Option", "Function"),
+        "bridge": RENDER + TABLES + NODES + DEC("Match", "Resolve", "Default", "Option", "Function", "Notation"),
         "sweeps": [sweep_front("notations", 160, 4000, cats=["body", "slice", "stderr"]),
                    sweep_front("nesting", 80, 2000, cats=["body", "slice", "stderr"]),
                    sweep_front("casefold", 60, 2000, cats=["body", "slice", "stderr"]),
@@ -381,7 +381,7 @@ PROPS = {
         "assumptions": [],
     },
     "C09": {
-        "bridge": TABLES + ["Convergen.Bridge.IntfOpts"] + DEC("Parse"),
+        "bridge": TABLES + ["Convergen.Bridge.IntfOpts"] + DEC("Parse", "Notation"),
         "sweeps": [sweep_front("scoping", 150, 4000)],
         "rule": FRONT_RULE % "scoping",
         "explanation": "a toggle line sets exactly its toggle (last writer wins), invalid-here notations are ignored, interface "
@@ -446,7 +446,7 @@ PROPS = {
         "assumptions": ["flag parsing is modelled for the four documented flags (the flag package itself is not)"],
     },
     "C14": {
-        "bridge": TABLES + DEC("Hooks", "Function", "Run", "Parse"),
+        "bridge": TABLES + DEC("Hooks", "Function", "Run", "Parse", "Notation"),
         "sweeps": [sweep_front("malformed", 200, 6000, cats=["exit", "stderr"]),
                    sweep_front("mixed", 80, 3000, cats=["exit", "stderr"]),
                    sweep_front("plain", 40, 1500, cats=["exit", "stderr"])],
@@ -472,7 +472,7 @@ PROPS = {
         "assumptions": [],
     },
     "C19": {
-        "bridge": DEC("Option"),
+        "bridge": DEC("Option", "Notation"),
         "sweeps": [sweep_api, sweep_front("casefold", 100, 3000, cats=["body", "slice"])],
         "rule": "operation sequences on one PatternMatcher / IdentMatcher / CompareFieldName with alternating case rule; "
                 "random over pattern/path pools (mixed case, dots, non-ASCII, RE2 classes/escapes/anchors/alternation) plus the "
